@@ -270,7 +270,8 @@ UPDATE_RULE = (
 PROPS["C10"] = {"rule": UPDATE_RULE, "trusted_base": UPDATE_TB, "assumptions": [
     "the Lean model is tied to the Rust code by differential execution, not by translation",
     "C10_idempotent / C10_same_commands hold under decidable guards (no line ends in CR, front-matter closed, languages without backtick/brace/white space, generated texts end in LF and do not start with a comment line); that generate_testcase produces such texts and that the real parser reads the same shell expressions from the re-tokenized code lines are decided by the direct oracles on the generated cases (and by C09), not proved",
-]}
+    "command-line glue (src/bin/commands/update.rs: executor, zip of test cases and outputs, detached handling, without_environment, output path for --replace / --output-suffix / --convert) is not modelled: harness/src/cli.rs runs the built binary on documents whose commands have known output and compares the written file with the model's `upd` answer and with generate_update fed the known outputs",
+], "needs_bin": True}
 
 GENERATE_TB = [
     KERNEL,
@@ -294,7 +295,8 @@ PROPS["C09"] = {"rule": GENERATE_RULE, "trusted_base": GENERATE_TB, "assumptions
     "the Lean model is tied to the Rust code by differential execution, not by translation",
     "the output is what TestCase::validate sees (after render_output); exit codes are process exit codes 0..255 for the read-back theorem",
     "create: no title, configuration = the format's default or output_stream: stderr",
-]}
+    "command-line glue (src/bin/commands/create.rs, update.rs) is not modelled: it is tied end to end by harness/src/cli.rs, which runs the built binary on commands with known output (cat <payload>; (exit N)) and compares the written document (minus the title the command line adds) with the model's `gen` answer, with the library generator fed the known output, and with `scrut test` on the written file",
+], "needs_bin": True}
 
 MANIFEST_TEXT = {
     "C09": {
